@@ -45,6 +45,7 @@ func init() {
 			{ID: "C07-R20", Title: "a failed start leaves the VM stopped", Floor: 1, Run: failedStartLeavesVMStopped},
 			{ID: "C07-R21", Title: "options that are rejected leave the VM's globals as they were", Floor: 1, Run: rejectedOptionsAreRolledBack},
 			{ID: "C07-R22", Title: "vm.globals is the conversion of what the host supplies now (shared with C08-R6)", Floor: 2, Run: c08r6},
+			{ID: "C07-R23", Title: "emptying the module table keeps the host's modules", Floor: 1, Run: resetKeepsTheHostModules},
 		},
 	})
 }
@@ -348,6 +349,27 @@ func c07r5(c *core.Ctx) {
 		}
 		return ""
 	}
+	// a value taken from the VM's own table of host-supplied globals: storing it
+	// again (registering the host's modules) publishes nothing this run produced
+	gi := fieldIdxByName(vmT, "globals")
+	hostSupplied := func(v ssa.Value) bool {
+		if gi < 0 {
+			return false
+		}
+		isNext := func(w ssa.Value) bool {
+			nx, ok := w.(*ssa.Next)
+			if !ok {
+				return false
+			}
+			rg, ok := nx.Iter.(*ssa.Range)
+			if !ok {
+				return false
+			}
+			_, ok = loadOfField(rg.X, vmT, gi)
+			return ok
+		}
+		return isNext(v) || core.DependsOn(v, isNext)
+	}
 	errIndex := func(fn *ssa.Function) int {
 		res := fn.Signature.Results()
 		for i := res.Len() - 1; i >= 0; i-- {
@@ -383,7 +405,7 @@ func c07r5(c *core.Ctx) {
 				for _, in := range b.Instrs {
 					switch x := in.(type) {
 					case *ssa.MapUpdate:
-						if f := fieldOfMap(x.Map); f != "" && exempt[f] == "" {
+						if f := fieldOfMap(x.Map); f != "" && exempt[f] == "" && !hostSupplied(x.Value) {
 							publishes[fn] = f
 							changed = true
 						}
@@ -405,7 +427,9 @@ func c07r5(c *core.Ctx) {
 				field, via := "", ""
 				switch x := in.(type) {
 				case *ssa.MapUpdate:
-					field = fieldOfMap(x.Map)
+					if !hostSupplied(x.Value) {
+						field = fieldOfMap(x.Map)
+					}
 				case ssa.CallInstruction:
 					if cal := x.Common().StaticCallee(); cal != nil && publishes[cal] != "" && errIdx >= 0 {
 						field, via = publishes[cal], " (through "+cal.Name()+")"
